@@ -73,7 +73,9 @@ type Call struct {
 	err  error
 }
 
-// Site names the call for violation signatures: <package>.<Func>.
+// Site names the call for violation signatures: <package>.<Func>.  A call chain (e.g. NewPublicKey then
+// NewPrivateKeyFromPublicKey) names each function before passing it its inputs: a region is attributed to
+// the site current when it was created; the event carries the last one.
 func (c *Call) Site(s string, ops ...string) {
 	c.site = s
 	c.ops = append(c.ops, ops...)
@@ -176,7 +178,9 @@ func (sc *Scenario) call(kind string, f func(c *Call)) {
 	}
 	for k, i := range c.idx {
 		r := sc.regs[i]
-		r.site = c.site
+		if r.site == "-" { // created before the call named its site
+			r.site = c.site
+		}
 		v := c.pre[k] // inputs: what the caller put in before the call; results: as returned
 		news = append(news, newReg{r.role, r.arg, v})
 	}
